@@ -8,8 +8,8 @@ from props import fam_readers as F
 from props import fam_sym
 
 MANIFEST = dict(
-    technique='Coq proof (PIR/FASTA reader total and in bounds, triplet parser terminates, for every byte string) + exact differential check of the modelled parsers on arbitrary bytes + sanitizer-instrumented runs of every reader entry point',
-    text='Theorems for ALL byte strings: read_pir_or_fasta never indexes outside its string or an empty vector and always returns or throws; parse_triplet and parse_triplet_part terminate (the loop consumes at least one byte per iteration). The models of the triplet parser, Hall-symbol interpreter (incl. Dimino closure) and space-group name lookup are compared exactly (value or exception) with gemmi on arbitrary, grammar-derived and mutated byte strings; the Hall model predicted an out-of-bounds write that was confirmed under UBSan and repaired. Memory safety, termination and resource limits of the remaining C++ readers are NOT theorems: every entry point named by the property (CIF at 3 check levels, mmJSON, PDB with options, XDS_ASCII, PIR/FASTA, triplets, Hall symbols, names, selections, and the block->structure / small structure / chemical component / reflection-table conversions) is run under ASan+UBSan with a 10 s alarm on random bytes, grammar-derived texts, seeded byte/line mutations and truncation points of every sample file under /repo/tests; outcome classes OK/EXC are accepted, CRASH/TIMEOUT are violations with the input as replay.',
+    technique='Coq proof (PIR/FASTA reader total and in bounds, triplet parser terminates, Hall-symbol interpreter in bounds, for every byte string) + exact differential check of the modelled parsers on arbitrary bytes + sanitizer-instrumented runs of every reader entry point',
+    text='Theorems for ALL byte strings: read_pir_or_fasta never indexes outside its string or an empty vector and always returns or throws; parse_triplet and parse_triplet_part terminate (the loop consumes at least one byte per iteration); the Hall-symbol interpreter (symops_from_hall incl. change of basis and Dimino closure) never indexes Op::tran outside {0,1,2} (the model makes the index explicit; the snapshot wrote tran[-120]). The models of the triplet parser, Hall-symbol interpreter (incl. Dimino closure) and space-group name lookup are compared exactly (value or exception) with gemmi on arbitrary, grammar-derived and mutated byte strings; the Hall model predicted an out-of-bounds write that was confirmed under UBSan and repaired. Memory safety, termination and resource limits of the remaining C++ readers are NOT theorems: every entry point named by the property (CIF at 3 check levels, mmJSON, PDB with options, XDS_ASCII, PIR/FASTA, triplets, Hall symbols, names, selections, and the block->structure / small structure / chemical component / reflection-table conversions) is run under ASan+UBSan with a 10 s alarm on random bytes, grammar-derived texts, seeded byte/line mutations and truncation points of every sample file under /repo/tests; outcome classes OK/EXC are accepted, CRASH/TIMEOUT are violations with the input as replay.',
     note='Trusted: Coq kernel; extraction; harness; ASan/UBSan. No axioms. PARTIAL by nature: safety of PEGTL, sajson and the conversion code is observed by the sanitizer run (testing), not proved. Signed-integer-overflow reports in number parsing of absurdly long digit strings are treated as crashes too.')
 
 KINDS_FOR_EXT = {
@@ -154,6 +154,30 @@ def run(chk):
                                                          -1 if rng.random() < 0.7 else rng.randint(0, size),
                                                          rng.choice([1, 1, 2, 3, 5, 10, 30]), rng.randint(1, 10 ** 9)))
     lines += linecut_cases(rng, quick)
+    # one value of a parsed CIF file replaced by a special value (missing, zero, negative, huge, wrong type ...),
+    # then the conversions: aimed at index arithmetic on category values (sequence numbers, ids, operation expressions)
+    cif_files = [p_ for (p_, ext) in files if ext in ('.cif', '.ent')]
+    rc_, out_, err_ = vlib.run_lines(h, [], inp=''.join('cifcount\t%s\n' % p_ for p_ in cif_files).encode())
+    INT_VALS = [0, 1, 2, 3, 4, 5, 6, 7, 8, 9, 12, 25, 26]   # indices of the integer-flavoured special values
+    for p_, l in zip(cif_files, out_):
+        try:
+            ncol, flags = l.split('\t')[2].split()
+            ncol = int(ncol)
+        except (ValueError, IndexError):
+            continue
+        kinds = ['st_cif', 'small', 'chemcomp', 'refln']
+        is_sf = p_.endswith('.ent') or 'hkl' in p_ or '-sf' in p_
+        todo = []
+        for c in range(ncol):
+            if flags[c] == 'i':      # ids, sequence numbers, counts: every integer-flavoured value
+                todo += [(c, v) for v in INT_VALS]
+            elif not quick:
+                todo += [(c, v) for v in range(43)]
+            else:
+                todo += [(c, rng.randrange(43)) for _ in range(2)]
+        for (c, v) in todo:
+            kind = 'refln' if is_sf and rng.random() < 0.7 else ('st_cif' if rng.random() < 0.7 else rng.choice(kinds))
+            lines.append('cifval\t%s %s %d %d %d' % (kind, p_, c, rng.randint(0, 10 ** 6), v))
     rng.shuffle(lines)
     res = vlib.correspond(chk, h, None, lines, timeout=3000,
                           env={'ASAN_OPTIONS': 'detect_leaks=0:abort_on_error=0:allocator_may_return_null=1:max_allocation_size_mb=2048'})
@@ -181,7 +205,7 @@ def run(chk):
                     replay={'harness': 'h_readers', 'line': line})
     chk.rule = ('(1) triplet / Hall / name / PIR parsers on arbitrary, grammar-derived and mutated bytes, exact comparison with the extracted models; '
                 '(2) every reader entry point and conversion under ASan+UBSan+alarm on the same small inputs and on every sample file of /repo/tests: '
-                'whole, truncated (quick: ~150 offsets per file incl. line starts and in-line cuts; thorough: every offset), and with 1-30 seeded byte/line mutations; every PDB record type (sample files + data/all_records.pdb) with one line cut short at every column. '
+                'whole, truncated (quick: ~150 offsets per file incl. line starts and in-line cuts; thorough: every offset), and with 1-30 seeded byte/line mutations; every PDB record type (sample files + data/all_records.pdb) with one line cut short at every column; one value of each parsed sample CIF replaced by 43 special values before the block conversions. '
                 'non-trivial = the reader accepted the input (OK)')
     if not proved:
         chk.violate('proof', 'Properties_C02 ' + ','.join(getattr(chk, 'failed_theorems', [])),
